@@ -23,9 +23,14 @@
                             '.'-separated segments, each accepted by DecodeAnyBase64 (necessary condition read
                             off ParseJWT; C18's model is_jwt satisfies it: C05_jwt_model_possible)
      cert_oracle_ok L k d   x509 accepts d iff k = 0
-     reserved_in table n    the base name of n is one of the table's name patterns *)
+     reserved_in table n    the base name of n is one of the table's name patterns
+     inspect_read limit     file.Inspect with its read limit: inspect_file on read_limited limit data
+                            (io.ReadAll(io.LimitReader(f, MaxReadSize)), max_read_size = 128 000 000)
+     parse_pem_block        parsePEMBlock after the repair of C05-F3 (a CERTIFICATE block whose content
+                            crypto/x509 rejects is described by ASN1File if it is one ASN.1 value);
+                            parse_pem_block_gen false: before the repair *)
 From WI Require Import Lib.Base Lib.Info Lib.Strings Model.Base64 Model.Dispatch Model.Render Model.Pem Model.Routes.
-From WI Require Import Proofs.Routes.
+From WI Require Import Proofs.Routes Proofs.RoutesWhole.
 From WI Require Proofs.Pem Model.Jwt.
 Open Scope N_scope.
 
@@ -190,7 +195,110 @@ Theorem C05_stdin : forall L pem_blocks sniff_other parse_other path data,
 Proof. exact stdin_thm. Qed.
 Print Assumptions C05_stdin.
 
+(* ---- THE WHOLE INPUT: size ---- *)
+(* The route theorems above are about the dispatcher applied to the whole byte string: no hypothesis bounds
+   the length of the object or of the file from above (the lengths are Coq's unbounded nat; the model uses
+   no fuel that a long input could exhaust: every fuelled loop is given the length of its own input).
+   The three statements below say so explicitly. *)
+
+(* READ LIMIT (the one upper bound of the code): Inspect hands the dispatcher what
+   io.ReadAll(io.LimitReader(f, MaxReadSize)) returns: the whole file when it has at most [limit] bytes
+   (MaxReadSize = 128 000 000), else its first [limit] bytes (exercised with a lowered limit: op insplim) *)
+Theorem C05_inspect_reads_whole_file : forall L pem_blocks sniff_other parse_other limit name data,
+  N.of_nat (length data) <= limit ->
+  inspect_read L pem_blocks sniff_other parse_other limit name data
+  = inspect_file L pem_blocks sniff_other parse_other name data.
+Proof. exact inspect_read_whole. Qed.
+Print Assumptions C05_inspect_reads_whole_file.
+
+Theorem C05_read_limit_is_a_prefix : forall data limit, read_limited limit data = take (N.to_nat limit) data.
+Proof. exact read_limited_take. Qed.
+Print Assumptions C05_read_limit_is_a_prefix.
+
+(* THE SNIFFER NEEDS THE WHOLE VALUE: no proper prefix of one BER/DER value is itself one value, so IsASN1
+   (and IsBase64ASN1 on text that decodes to a head only) answers no on every head of an object: a reader
+   that chooses the parsers from the first n bytes of the input loses every object longer than n *)
+Theorem C05_asn1_sniffer_needs_whole_value : forall d n,
+  is_asn1 d = true -> (n < length d)%nat -> is_asn1 (take n d) = false.
+Proof. exact is_asn1_needs_whole. Qed.
+Print Assumptions C05_asn1_sniffer_needs_whole_value.
+
+Theorem C05_b64_sniffer_needs_whole_value : forall text d n, is_asn1 d = true -> (n < length d)%nat ->
+  decode_any text = Ok (take n d) -> is_b64_asn1 text = false.
+Proof. exact is_b64_asn1_needs_whole. Qed.
+Print Assumptions C05_b64_sniffer_needs_whole_value.
+
+(* ALL LENGTHS: for every length len >= 34 and every well-formed object of that length, raw DER, base64 (any
+   alphabet, padding, wrap width, line ending, final line break) and the PEM block (LF or CRLF, any trailer
+   without a start marker, any file name) get the description of the kind's own parser *)
+Theorem C05_three_routes_all_lengths :
+  forall L sniff_other parse_other len n1 n2 n3 k d e w crlf1 trail crlf2 post i,
+  length d = len -> (34 <= len)%nat -> (k <= 6)%nat ->
+  der_of_kind k d = true -> cert_oracle_ok L k d = true ->
+  reserved_in table n1 = false -> reserved_in table n2 = false ->
+  uuid_oracle_ok sniff_other -> jwt_oracle_ok sniff_other ->
+  index_of pem_begin post = None ->
+  parse_kind L k d = Ok i -> i_desc i <> i_desc unknown_asn1 ->
+  inspect_file L pem_blocks_of sniff_other parse_other n1 d = Ok i /\
+  inspect_file L pem_blocks_of sniff_other parse_other n2 (b64_text e w crlf1 trail d) = Ok i /\
+  inspect_file L pem_blocks_of sniff_other parse_other n3 (pem_text (label_of k) d crlf2 [] post) = Ok i.
+Proof. exact three_routes_all_lengths. Qed.
+Print Assumptions C05_three_routes_all_lengths.
+
+(* ... and through Inspect's read limit, for files of at most [limit] bytes *)
+Theorem C05_three_routes_read :
+  forall L sniff_other parse_other limit n1 n2 n3 k d e w crlf1 trail crlf2 post i,
+  (34 <= length d)%nat -> (k <= 6)%nat ->
+  der_of_kind k d = true -> cert_oracle_ok L k d = true ->
+  reserved_in table n1 = false -> reserved_in table n2 = false ->
+  uuid_oracle_ok sniff_other -> jwt_oracle_ok sniff_other ->
+  index_of pem_begin post = None ->
+  parse_kind L k d = Ok i -> i_desc i <> i_desc unknown_asn1 ->
+  N.of_nat (length d) <= limit ->
+  N.of_nat (length (b64_text e w crlf1 trail d)) <= limit ->
+  N.of_nat (length (pem_text (label_of k) d crlf2 [] post)) <= limit ->
+  inspect_read L pem_blocks_of sniff_other parse_other limit n1 d = Ok i /\
+  inspect_read L pem_blocks_of sniff_other parse_other limit n2 (b64_text e w crlf1 trail d) = Ok i /\
+  inspect_read L pem_blocks_of sniff_other parse_other limit n3 (pem_text (label_of k) d crlf2 [] post) = Ok i.
+Proof. exact three_routes_read. Qed.
+Print Assumptions C05_three_routes_read.
+
+(* ---- VARIANTS THE TOOL HAS NO TYPE FOR ---- *)
+(* A certificate-shaped object (one DER SEQUENCE, see der_of_kind 0) that crypto/x509 REJECTS (a subject key
+   on a curve the library does not implement, explicit EC parameters, inherited DSA parameters ...) gets one
+   description in all three presentations: the one ASN1File gives its DER (since the repair of C05-F3 the
+   content of a CERTIFICATE block that x509 rejects is described by ASN1File too) *)
+Theorem C05_rejected_certificate_invariant :
+  forall L sniff_other parse_other n1 n2 n3 d e w crlf1 trail crlf2 post err i,
+  der_of_kind 0 d = true -> (34 <= length d)%nat -> l_cert L d = Err err ->
+  reserved_in table n1 = false -> reserved_in table n2 = false ->
+  uuid_oracle_ok sniff_other -> jwt_oracle_ok sniff_other ->
+  index_of pem_begin post = None ->
+  asn1_file L d = Ok i ->
+  inspect_file L pem_blocks_of sniff_other parse_other n1 d = Ok i /\
+  inspect_file L pem_blocks_of sniff_other parse_other n2 (b64_text e w crlf1 trail d) = Ok i /\
+  inspect_file L pem_blocks_of sniff_other parse_other n3 (pem_text (label_of 0) d crlf2 [] post) = Ok i.
+Proof. exact rejected_cert_invariant. Qed.
+Print Assumptions C05_rejected_certificate_invariant.
+
+(* ... at the level of the block, for the label in any letter case *)
+Theorem C05_pem_rejected_certificate : forall L typ d e, to_upper_go typ = label_of 0 ->
+  is_asn1 d = true -> l_cert L d = Err e ->
+  parse_pem_block L typ d = asn1_file L d.
+Proof. exact pem_block_rejected_cert. Qed.
+Print Assumptions C05_pem_rejected_certificate.
+
 (* ---- the unrepaired code refuted ---- *)
+(* C05-F3 (parsePEMBlock before the repair: "unknown PEM data" whenever x509 rejects the content): an object
+   with the outline of a certificate is dumped as DER but unknown in a CERTIFICATE block *)
+Theorem C05_F3_refuted : exists d,
+  der_of_kind 0 d = true /\ (exists e, l_cert L0 d = Err e) /\
+  asn1_file L0 d = Ok (l_generic L0 d) /\
+  parse_pem_block_gen false L0 (label_of 0) d = Ok unknown_pem /\
+  l_generic L0 d <> unknown_pem.
+Proof. exact F3_refuted. Qed.
+Print Assumptions C05_F3_refuted.
+
 (* C05-F1 (table before the repair: ASN1File tried before Base64ASN1File): a well-formed EC key whose
    base64 text is itself one BER value is described differently from its DER *)
 Theorem C05_F1_refuted : exists k d e w crlf trail name,
